@@ -213,6 +213,7 @@ func runCodec(rep *Report, replay string) {
 		cases = append(cases, wireCases(r, nWire, rep)...)
 		cases = append(cases, interleavedSwapCases(r, nWire)...)
 		cases = append(cases, putAnyCases(r, nWire)...)
+		cases = append(cases, readNumCases(r, nWire)...)
 		rep.Exhaustive = false
 	}
 	rep.Rule = "cases = corpus + every sequence of length 1 and 2 over the reduced alphabet {delete,put,merge}×{0,2,8-byte,string}×{same,+1,+2,+128,+16384,-1,-16384,+2^21} (thorough: a sample of length 3) + random sequences (1..30 ops; a few of 200..1000 ops with strings up to 65535 bytes) over all five widths, type nibbles 0..15 and 16 offset moves + serialized buffers/commits whole and truncated; non-trivial = has ≥2 chunk switches, interleaved sections, is exhaustive-enumerated, long, or a wire case; distinct = by SHA-1 of the script"
